@@ -472,7 +472,13 @@ func (w *c07walker) block(stmts []ast.Stmt, guards []string, fr *c07frame, ret s
 				w.block([]ast.Stmt{v.Else}, append(append([]string(nil), guards...), neg), fr, ret)
 			}
 			if c07terminates(v.Body) && v.Else == nil {
-				w.block(stmts[i+1:], append(append([]string(nil), guards...), "past:"+neg), fr, ret)
+				// in a helper whose value is stored, "return a" under c and "return b" after it are the two arms
+				// of an if/else; anywhere else the rest merely runs past an early return
+				g := "past:" + neg
+				if fr.parent != nil && ret != "" {
+					g = neg
+				}
+				w.block(stmts[i+1:], append(append([]string(nil), guards...), g), fr, ret)
 				return
 			}
 		case *ast.ForStmt:
